@@ -15,7 +15,7 @@ from typing import Dict, List, Optional, Set, Tuple
 
 from ..adi import BOOL_UNIVERSE, FALSE, TRUE, Interp, enum_universe
 from ..fold import CannotFold, Folder, Sym
-from ..model import AnchorError, Program, dotted, last_attr, norm, parent, walk_no_nested
+from ..model import AnchorError, Program, dotted, kw, last_attr, norm, parent, walk_no_nested
 from ..report import Check
 from .common import (
     SINGLETONS,
@@ -186,8 +186,92 @@ def r02hi(prog: Program, chk: Check) -> None:
     chk.ob("R02.i", "stacked_scopes::FunctionScope._add_single_constraint::origin-subset", ok, prog.site("stacked_scopes", ac), "the origin test must bail out unless current origins are a subset of the constraint's origins; an overlap test applies a stale constraint to a rebinding that was never tested")
 
 
+def r02j(prog: Program, chk: Check) -> None:
+    chk.rule(
+        "R02.j",
+        "isinstance() is a runtime-class test while assignability follows numeric promotion: the predicate built for "
+        "isinstance() is flagged as a runtime check, its negative arm never drops a member on assignability alone when "
+        "that flag is set, and the table of promoted types it consults agrees with TypeObject's artificial bases",
+        floor=4,
+    )
+    from .c03 import promotion_edges
+
+    edges = {e for e in promotion_edges(prog) if not e[0].startswith("<")}
+    m = "predicates"
+    call = prog.func(m, "IsAssignablePredicate.__call__")
+    pol = [a.arg for a in call.args.args][-1]
+    # `return None` statements in the negative arm
+    neg_returns = []
+    for r in returns_of(call):
+        if not (r.value is None or (isinstance(r.value, ast.Constant) and r.value.value is None)):
+            continue
+        gs = guards_of(r, call)
+        if any(norm(t) == pol and not inbody for t, inbody in gs):
+            neg_returns.append((r, gs))
+    if not neg_returns:
+        raise AnchorError("IsAssignablePredicate.__call__: no `return None` in the negative arm")
+    flag = None
+    helper = None
+    for r, gs in neg_returns:
+        ok = False
+        # (a) guarded by `not self.<flag>`
+        for t, inbody in gs:
+            if isinstance(t, ast.UnaryOp) and isinstance(t.op, ast.Not) and isinstance(t.operand, ast.Attribute) and norm(t.operand.value) == "self" and t.operand.attr != "positive_only" and inbody:
+                flag, ok = t.operand.attr, True
+            if isinstance(t, ast.Attribute) and norm(t.value) == "self" and t.attr != "positive_only" and not inbody:
+                flag, ok = t.attr, True
+        # (b) preceded in its block by `if self.<flag>: return <call>`
+        blk = parent(r)
+        for fld in ("body", "orelse"):
+            stmts = getattr(blk, fld, None)
+            if isinstance(stmts, list) and any(x is r for x in stmts):
+                for st in stmts[: [x is r for x in stmts].index(True)]:
+                    if isinstance(st, ast.If) and isinstance(st.test, ast.Attribute) and norm(st.test.value) == "self" and st.body and isinstance(st.body[-1], ast.Return) and isinstance(st.body[-1].value, ast.Call):
+                        flag, ok = st.test.attr, True
+                        helper = last_attr(st.body[-1].value)
+        chk.ob("R02.j", f"{m}::IsAssignablePredicate.__call__::negative-drop@guarded-by-runtime-flag", ok, prog.site(m, r),
+               "in the negative arm a member is dropped because it is assignable to the tested type; for a runtime isinstance() test that is wrong for "
+               "int vs float/complex (assignable, never an instance) - the drop must be bypassed when the predicate stands for a runtime check")
+    if helper is None:
+        for r in returns_of(call):
+            if isinstance(r.value, ast.Call) and isinstance(r.value.func, ast.Name) and prog.has_func(m, r.value.func.id):
+                if any(norm(t) == pol and not inbody for t, inbody in guards_of(r, call)):
+                    helper = r.value.func.id
+    # the isinstance implementation sets the flag
+    impl = prog.func("implementation", "_isinstance_impl")
+    built = calls_in(impl, "IsAssignablePredicate")
+    if not built:
+        raise AnchorError("_isinstance_impl does not build an IsAssignablePredicate")
+    for c in built:
+        v = kw(c, flag) if flag else None
+        chk.ob("R02.j", "implementation::_isinstance_impl::predicate-is-runtime-check", isinstance(v, ast.Constant) and v.value is True, prog.site("implementation", c),
+               f"the predicate narrowing on isinstance() must be built with {flag or '<runtime flag>'}=True")
+    # promoted-type table agrees with the promotion edges
+    rows: Dict[str, Set[str]] = {}
+    table_name = None
+    if helper and prog.has_func(m, helper):
+        hf = prog.func(m, helper)
+        for n in ast.walk(hf):
+            if isinstance(n, ast.Name) and n.id.isupper() or (isinstance(n, ast.Name) and n.id.startswith("_") and n.id[1:].isupper()):
+                table_name = n.id  # type: ignore[union-attr]
+    if table_name:
+        try:
+            t = Folder(prog, m).table(table_name)
+            for k, vs in t.items():
+                rows[getattr(k, "last", str(k))] = {getattr(v, "last", str(v)) for v in vs}
+        except (CannotFold, AnchorError):
+            rows = {}
+    for sub, sup in sorted(edges):
+        chk.ob("R02.j", f"{m}::promoted-types::{sub}->{sup}", sub in rows.get(sup, set()), f"pyanalyze/{m}.py",
+               f"TypeObject promotes {sub} to {sup}; a value declared {sup} may therefore be a {sub} at run time and must survive `not isinstance(x, {sup})` "
+               f"(table {table_name or '<none found>'} = {rows})")
+    extra = {(s_, k) for k, vs in rows.items() for s_ in vs} - edges
+    chk.ob("R02.j", f"{m}::promoted-types::no-extra", not extra, f"pyanalyze/{m}.py", f"promoted-type rows without a matching artificial base: {sorted(extra)} (narrowing would widen)")
+
+
 def run(prog: Program, chk: Check) -> None:
     r02hi(prog, chk)
+    r02j(prog, chk)
     r02f(prog, chk)
     r02g(prog, chk)
     r02a(prog, chk)
